@@ -700,7 +700,43 @@ func raceOne(rc *raceCase, timeout time.Duration, jitter time.Duration, swap boo
 		}
 		done <- struct{}{}
 	}
-	// Write steps must be registered in a fixed order for the bookkeeping: issue them through a lock-free path
+	if a.A == "Write" && b.A == "Write" {
+		// deterministic schedule for concurrent writers: park them between offset allocation and WAL append
+		// and let the one with the higher offset go first
+		sim.WriteGate(true)
+		stopGate := make(chan struct{})
+		defer close(stopGate)
+		go func() {
+			var since time.Time
+			for {
+				select {
+				case <-stopGate:
+					sim.WriteGate(false)
+					for _, o := range sim.ParkedWriters() {
+						_ = sim.Release("write", "*", fmt.Sprint(o), time.Millisecond)
+					}
+					return
+				case <-time.After(time.Millisecond):
+				}
+				ws := sim.ParkedWriters()
+				switch {
+				case len(ws) >= 2:
+					_ = sim.Release("write", "*", fmt.Sprint(ws[len(ws)-1]), time.Millisecond)
+					time.Sleep(20 * time.Millisecond)
+					since = time.Time{}
+				case len(ws) == 1:
+					if since.IsZero() {
+						since = time.Now()
+					} else if time.Since(since) > 60*time.Millisecond {
+						_ = sim.Release("write", "*", fmt.Sprint(ws[0]), time.Millisecond)
+						since = time.Time{}
+					}
+				default:
+					since = time.Time{}
+				}
+			}
+		}()
+	}
 	go run(first)
 	if jitter > 0 {
 		time.Sleep(jitter)
